@@ -19,6 +19,9 @@
 (*            insert the block now, the others fall behind                                                   *)
 (*   Deliver  a node that is behind receives its next block (block path only)                                *)
 (*   Probe    every synced node validates a block that is valid only under one set of rules                   *)
+(*   Crash    a node that is behind receives its next block and dies inside the insertion, either before anything  *)
+(*            of the block is durable ("lost") or right after the block became the head, inside the write of the   *)
+(*            stored consensus version / of the intermediate genesis ("kept"); it starts again over what survived  *)
 (*   Reorg    the last block was inserted by some nodes only; the others commit the empty block at that height  *)
 (*            instead and the holders of the orphaned block switch to it (ResetTo + AddBlock, as the fork        *)
 (*            resolver does)                                                                                 *)
@@ -29,7 +32,7 @@ CONSTANTS Nodes, Bases, Gens, VNs, MaxT,
           Proposers,    \* who proposes honest blocks
           Crafters,     \* who offers crafted blocks
           Laggers,      \* who may be left behind in a round
-          MaxVotes, MaxOdd, MaxBlocks, MaxRestarts, MaxPersists, MaxTicks, MaxCraft, MaxForce, MaxLag, MaxProbes, MaxReorg,
+          MaxVotes, MaxOdd, MaxBlocks, MaxRestarts, MaxPersists, MaxTicks, MaxCraft, MaxForce, MaxLag, MaxProbes, MaxReorg, MaxCrash,
           ExportOn, SampleMod
 
 Ids == Nodes
@@ -60,10 +63,10 @@ Init == /\ w \in [base : Bases, gen : Gens, vn : VNs]
         /\ nd = [n \in Nodes |-> [ver |-> w.base, stored |-> 0, book |-> Book0, pbook |-> Book0, cur |-> PreGen, old |-> NoGen, inter |-> NoGen]]
         /\ hd = [n \in Nodes |-> 0]
         /\ now = IF w.base = 10 THEN 0 ELSE 2
-        /\ cnt = [vote |-> 0, odd |-> 0, blk |-> 0, restart |-> 0, persist |-> 0, tick |-> 0, craft |-> 0, force |-> 0, lag |-> 0, probe |-> 0, reorg |-> 0]
+        /\ cnt = [vote |-> 0, odd |-> 0, blk |-> 0, restart |-> 0, persist |-> 0, tick |-> 0, craft |-> 0, force |-> 0, lag |-> 0, probe |-> 0, reorg |-> 0, crash |-> 0]
         /\ clean = TRUE /\ sg = <<0, -1>> /\ lab = [kind |-> "init"] /\ hist = <<>>
 
-Step(k) == [k |-> k, t |-> 0, i |-> 0, b |-> 0, hon |-> 0, s |-> {}, n |-> 0, p |-> 0, c |-> <<>>, f |-> 0, r |-> {}, x |-> <<>>]
+Step(k) == [k |-> k, ck |-> "", t |-> 0, i |-> 0, b |-> 0, hon |-> 0, s |-> {}, n |-> 0, p |-> 0, c |-> <<>>, f |-> 0, r |-> {}, x |-> <<>>]
 Inc(f) == [cnt EXCEPT ![f] = @ + 1]
 \* stage discipline: a step of stage s with index i may follow a step of a lower stage, or of the same stage with a lower index
 At(s, i) == /\ (sg[1] < s \/ (sg[1] = s /\ sg[2] < i))
@@ -192,6 +195,22 @@ Probe(k, r) ==
     /\ hist' = Append(hist, [Step("probe") EXCEPT !.x = <<k, r>>])
     /\ UNCHANGED <<w, chain, nd, hd, now, clean>>
 
+\* what the property requires after a crash inside an insertion: the node that starts again is what the chain it holds makes
+\* it ("kept": as if the insertion had completed before the restart)
+Crash(n, kept) ==
+    /\ cnt.crash < MaxCrash /\ hd[n] < Len(chain) /\ sg[1] <= 4 /\ sg' = <<4, -1>>
+    /\ LET j == hd[n] + 1
+           b == chain[j]
+       IN /\ (kept => (Upgrades(Cfg, nd[n].ver, b) \/ b.ng))
+          /\ ChainAccepts(Cfg, nd[n].ver, BlockAt(j - 1), b)
+          /\ nd' = [nd EXCEPT ![n] = IF kept THEN RestartNode(Cfg, w.base, InsertBlock(Cfg, nd[n], b, j + 1), b)
+                                      ELSE RestartNode(Cfg, w.base, nd[n], HeadOf(n))]
+          /\ hd' = [hd EXCEPT ![n] = IF kept THEN j ELSE hd[n]]
+          /\ lab' = [kind |-> IF ~kept THEN "crash:lost" ELSE IF b.ng THEN "crash:kept:newgenesis" ELSE "crash:kept:upgrade"]
+    /\ cnt' = Inc("crash")
+    /\ hist' = Append(hist, [Step("crash") EXCEPT !.n = n, !.ck = IF kept THEN "kept" ELSE "lost"])
+    /\ UNCHANGED <<w, chain, now, clean>>
+
 Reorg ==
     /\ cnt.reorg < MaxReorg /\ Len(chain) >= 1
     /\ LET j == Len(chain)
@@ -223,6 +242,7 @@ Next == \/ \E t \in 0..MaxT : Tick(t)
         \/ \E n \in Nodes : Deliver(n)
         \/ \E r \in 11..12 : Probe("pay", r)
         \/ Reorg
+        \/ \E n \in Nodes, kept \in BOOLEAN : Crash(n, kept)
 
 Spec == Init /\ [][Next]_vars
 
